@@ -4,7 +4,7 @@ func init() {
 	register(propSpec{
 		ID: "C03", Pkg: "props/c03", NeedCLI: true, Isolated: true, MemLimitMB: 4096,
 		Rule: "cases: byte strings for twelve entry points (FASTA Parse/ParseUnalign, Phylip relaxed/strict Parse and ParseMultiple, Nexus, Clustal, Stockholm, partition with a drawn declared length, ParseAlignmentAuto relaxed/strict) x duplicate-name policy x forced alphabet. " +
-			"A valid file (written by the harness's own emitters from a drawn alignment with hostile-but-legal names, a static seed in the style of the repository's tests, or a file of corpus/<format>/) receives 0-6 structure-aware mutations (truncate, delete/duplicate/swap lines, flip/insert/delete a byte, delete a range, splice a token of a hostile dictionary (delimiters, keywords, CR, NUL, 19/20-digit integers, multi-byte and invalid UTF-8), splice another format, change a header count by +-1/2, CRLF, strip the final newline); the corpus is also replayed through every target and option; thorough adds native coverage-guided fuzzing per parser with the same oracle inside the target; goalign reformat runs on mutated files. " +
+			"A valid file (written by the harness's own emitters from a drawn alignment with hostile-but-legal names, a static seed in the style of the repository's tests, or a file of corpus/<format>/) receives 0-6 structure-aware mutations (truncate, delete/duplicate/swap lines, flip/insert/delete a byte, delete a range, splice a token of a hostile dictionary (delimiters, keywords, CR, NUL, 19/20-digit integers, multi-byte and invalid UTF-8), splice another format, change a header count by +-1/2, CRLF, strip the final newline); the corpus is also replayed through every target and option; thorough adds native coverage-guided fuzzing per parser with the same oracle inside the target; every goalign reformat sub-command (fasta, phylip, nexus, clustal, paml, tnt) runs on mutated files; a declared partition text of plain form is re-read independently and the parsed map compared with it; mutations also write one terminator twice (an empty Nexus command) and use the whole punctuation of the Nexus standard. " +
 			"Oracle (validity predicate): the call returns within a 10 s watchdog (confirmed alone with 30 s before it is reported), does not panic, and on success returns the end-of-stream marker only for a blank Phylip stream, or a result with >=1 row and >=1 column, every row of Length() residues, pairwise distinct names, row/column counts equal to the header of a Phylip file and to an unambiguous NTAX/NCHAR of a Nexus file (<= under the duplicate-dropping policies), >=1 distinctly named sequence for ParseUnalign, every site of a partition map in [-1,NPartitions) over exactly the declared length; an error must carry a message. " +
 			"Non-trivial: the parser went beyond its first token (success, or an error other than the format's first-token message); distinct = distinct (target, bytes, options)",
 		Assumptions: []string{
@@ -26,7 +26,7 @@ func init() {
 			{Name: "stockholm", Test: "^TestStockholm$", Quick: 5000, Thorough: 150000, Shards: 2},
 			{Name: "partition", Test: "^TestPartition$", Quick: 5000, Thorough: 150000, Shards: 1},
 			{Name: "auto", Test: "^TestAuto$", Quick: 4000, Thorough: 150000, Shards: 1},
-			{Name: "cli", Test: "^TestCLI$", Quick: 250, Thorough: 3000, Shards: 1},
+			{Name: "cli", Test: "^TestCLI$", Quick: 400, Thorough: 4000, Shards: 1},
 		},
 		Fuzz: []fuzzSpec{
 			{Target: "FuzzFasta", Seconds: 40},
